@@ -1,5 +1,7 @@
 package scriggo
 
+import "github.com/open2b/scriggo/native"
+
 // C04 (end to end on tiny sources): BuildTemplate and Build — lexer, parser,
 // type checker and emitter — never panic and fail only with a *BuildError,
 // for every choice of the symbolic bytes placed in a small template or
@@ -44,3 +46,35 @@ func vh_c04_build_expr_t() { vc04_build("{{ 7", "3 }}", 3) }
 func vh_c04_build_str_t()  { vc04_build("{{ \"a\"", " }}", 3) }
 func vh_c04_build_prog_t() { vc04_buildprog("package main\nfunc main() { var a = 3", "; _ = a }\n", 3) }
 func vh_c04_build_if_t()   { vc04_build("{% if ", " %}x{% end %}", 3) }
+
+type vbuf struct{ b []byte }
+
+func (w *vbuf) Write(p []byte) (int, error) { w.b = append(w.b, p...); return len(p), nil }
+
+// C05 (end to end on tiny templates): what builds also runs without a host
+// panic; Run returns nil or a *PanicError. Two int globals with arbitrary
+// values are combined by an arbitrary operator spelled with symbolic bytes.
+func vc05_run(prefix, suffix string, n int) {
+	a, b := int(vsym_i64()), int(vsym_i64())
+	sym := vsym_bytes(n)
+	src := append(append([]byte(prefix), sym...), suffix...)
+	opts := &BuildOptions{Globals: native.Declarations{"a": &a, "b": &b}}
+	tmpl, err := BuildTemplate(Files{"index.txt": src}, "index.txt", opts)
+	if err != nil {
+		_, ok := err.(*BuildError)
+		vassert(ok, "error-is-a-BuildError")
+		vreach("rejected")
+		return
+	}
+	var out vbuf
+	err = tmpl.Run(&out, nil, nil)
+	if err != nil {
+		_, ok := err.(*PanicError)
+		vassert(ok, "run-error-is-a-PanicError")
+		vreach("run-error")
+	}
+	vreach("ran")
+}
+
+func vh_dbgrun_1() { vc05_run("{% if a ", " b %}T{% end %}", 1) }
+func vh_dbgrun_2() { vc05_run("{% c := a ", " b %}{% if c == a %}T{% end %}", 1) }
